@@ -65,6 +65,7 @@ def run(ctx: Ctx, rep: Report) -> None:
     # operations are values shared by reference: nobody rewrites them
     from . import circuit_edit
     circuit_edit.opvalue(ctx, rep)
+    circuit_edit.idlerow(ctx, rep)
     # paired read views and the two directions of the grid walk
     from ..rules.mirror import rule_mirror
     c = 'bqskit/ir/circuit.py:Circuit.'
